@@ -27,6 +27,7 @@ func checkC02(p *Prog, res *Result, tier string) {
 	res.rule("C02-R1", "TSO counters: atomic-only access; dealt counter written only by +1 in Deal, Store in Init, guarded monotone CAS in Commit; committed counter only by Store in Init and guarded monotone CAS in Commit", 6)
 	res.rule("C02-R2", "every version key written to storage carries an allocated revision", 5)
 	res.rule("C02-R3", "only the sequencer, the leader-start callback, the follower sync and pass-throughs call TSO.Init/Commit/SetCurrentRevision", 3)
+	res.rule("C02-R8", "TSO.Commit leaves the allocator at or above the committed revision on every path: no return of Commit is reached without an atomic operation on the allocator field", 1)
 	res.rule("C02-R7", "a version record is committed with an allocated revision only where that allocation's error (oracle failure, revision drift back below the revision the write is conditioned on) was found nil", 4)
 	res.rule("C02-R5", "along one key's history revisions increase: guards of the index CAS (create over a tombstone only if prevRevision < revision; delete only if newRevision > modRevision) — C01-R3/R4, evaluated atomically by every engine (C01-R6)", 12)
 	res.rule("C02-R6", "a node that becomes leader seeds its counters from the lock's engine timestamp before it admits writes (C15-R1): no revision is handed out twice across a hand-over", 3)
@@ -50,6 +51,7 @@ func checkC02(p *Prog, res *Result, tier string) {
 	}
 
 	checkAllocErrorChecked(p, r, a, res, "C02-R7")
+	checkCommitRaisesAllocator(p, r, res, "C02-R8")
 
 	// ---- R5: per-key monotonicity rests on the guards of the index CAS (C01-R3 / C01-R4) ----
 	sub1 := p.subResult("C01", tier)
